@@ -5,8 +5,8 @@ package main
 //   c10.dnsrw <value bytes> <addr oracle table> = err|PANIC|<rewrite wire>
 //       Go side: rules.VerifLoadDNSRewrite(v) (= loadDNSRewrite) for arbitrary bytes and, whenever
 //       v can be written as an option value (no ',' '$' '\\'), also
-//       rules.NewNetworkRule("||h^$dnsrewrite="+v, 1).DNSRewrite -- both must agree, otherwise the
-//       answer is NETRULE-MISMATCH.
+//       rules.NewNetworkRule("||h^$dnsrewrite="+v, 1).DNSRewrite -- both must agree (for every such v,
+//       non-ASCII included), otherwise the answer is NETRULE-MISMATCH.
 //   c10.shape <rewrite wire> = T
 //       emitted for every value the implementation ACCEPTED: the Lean driver evaluates the
 //       published shape predicate on the implementation's own result.
@@ -300,10 +300,9 @@ func c10Go(v string) (ans string, rw, viaRule *rules.DNSRewrite) {
 
 		return tok(wrewrite(f.DNSRewrite))
 	})
-	// The option splitter of NewNetworkRule (splitWithEscapeCharacter) keeps only the first byte
-	// of every multi-byte character, so the value loadDNSRewrite sees equals v for ASCII v only;
-	// for other v only the SHAPE of the stored rewrite is checked (c10.shape).
-	if via != ans && (isASCII(v) || via == "PANIC") {
+	// (The option splitter used to drop UTF-8 continuation bytes -- D13, repaired in /repo by
+	// 2392f6b -- so the value loadDNSRewrite sees equals v for every v without ',' '$' '\\'.)
+	if via != ans {
 		return "NETRULE-MISMATCH:" + via + "/" + ans, rw, viaRule
 	}
 
@@ -325,7 +324,7 @@ func genC10(r *rng, n int, w *bufio.Writer) {
 		if rw != nil {
 			fmt.Fprintf(w, "c10.shape %s = T ## %q\n", wrewrite(rw), v)
 		}
-		if viaRule != nil && !isASCII(v) {
+		if viaRule != nil && !isASCII(v) && r.chance(1, 4) {
 			fmt.Fprintf(w, "c10.shape %s = T ## via NewNetworkRule: %q\n", wrewrite(viaRule), v)
 		}
 	}
